@@ -690,6 +690,28 @@ func tryFunc(p interface{}, read bool) func() bool {
 			return nil
 		}
 	}
+	for _, n := range OwnLockTypes {
+		if n == base {
+			return nil
+		}
+	}
+	for i := 0; i < t.NumField(); i++ {
+		// struct { sync.Locker; ... }: the embedded interface holds the mutex
+		if f := t.Field(i); f.Anonymous && f.Type == lockerType && f.PkgPath == "" {
+			switch m := v.Elem().Field(i).Interface().(type) {
+			case *sync.Mutex:
+				if !read {
+					return m.TryLock
+				}
+			case *sync.RWMutex:
+				if read {
+					return m.TryRLock
+				}
+				return m.TryLock
+			}
+			return nil
+		}
+	}
 	if !embedsMutex(t, 0) {
 		return nil
 	}
@@ -734,6 +756,7 @@ func embedsMutex(t reflect.Type, depth int) bool {
 var (
 	mutexType   = reflect.TypeOf(sync.Mutex{})
 	rwMutexType = reflect.TypeOf(sync.RWMutex{})
+	lockerType  = reflect.TypeOf((*sync.Locker)(nil)).Elem()
 )
 
 func indexByte(s string, c byte) int {
